@@ -1337,3 +1337,115 @@ Proof. vm_compute. repeat split. Qed.
 
 Print Assumptions C05_fault_closing2_macro_arg_partial.
 Print Assumptions C05_fault_opening2_macro_arg_partial.
+
+(** * An unmatched opening delimiter inserted into a well-formed ORIGINAL extended document
+    (proofs in [Proofs/Fault2DocBar.v], [Proofs/Fault2Doc.v])
+
+    PARTIAL.  The hypotheses of [C05_fault_opening2_partial] are about the FAULTED text; here
+    the hypothesis is [ok_doc2 cx d] for the document [d = l1 ++ l2, tr] the delimiter is
+    inserted into (at a top-level item boundary, after the items [l1] and optional whitespace
+    [fws]), plus boolean side conditions:
+      - [no_special_char cx 125]: no specials sequence of the context contains [}];
+      - [ins_point_ok cx l1 (fws ++ open_text2 op)]: the insertion point is INSENSITIVE — the
+        beginning of the document; or right behind a braced group / an environment
+        ([closed_item2]); or right behind a text run that starts the document or follows such an
+        item, and the first inserted character occurs in no specials sequence of the context;
+      - [open_side2 cx ps0 [] fws op fol]: the side conditions of the delimiter itself (no items
+        in front): [fws] whitespace without a paragraph break; a math delimiter stands outside
+        math mode and [$] is not directly followed by [$]; [\begin{name}] resolves to a standard
+        signature, its arguments are well formed in front of the rest of the document;
+      - the items [l2] behind the insertion point are well formed as the BODY of the new
+        construct, in its state (for [{] and non-math environments that is the state of the
+        document and follows from [ok_doc2]: [C05_fault_opening2_doc_brace_partial]; for math
+        delimiters and math environments the rest of the document must be well formed in math
+        mode).
+    Same error, same position as [C05_fault_opening2_partial].
+
+    Which side conditions of [ok_item2] consult the follow string, and how far, is listed in
+    [Proofs/Fault2DocBar.v]; [C05_follow_barrier_partial]: none of them looks past a closing
+    brace.  NOT covered: insertion points behind a macro call, a specials sequence, a comment, a
+    paragraph break, a formula, a verbatim macro / environment (there the side conditions of the
+    item in front depend on the inserted character: [C05_fault_opening2_doc_point_needed]);
+    nested insertion points (the bridge is for the top-level body only). *)
+From PLV Require Import Proofs.Fault2DocBar Proofs.Fault2Doc.
+
+(** follow-insensitivity behind a barrier: the side conditions of extended items that are
+    followed by [A ++ [}] ++ F] do not depend on [F] *)
+Theorem C05_follow_barrier_partial : forall cx, no_special_char cx 125 = true ->
+  forall ps ex l (A F F' : str),
+  ok_items2 cx ps ex l (A ++ 125%N :: F) = true -> ok_items2 cx ps ex l (A ++ 125%N :: F') = true.
+Proof. exact ok_items2_brace. Qed.
+
+(** at an insensitive insertion point the items in front are well formed in front of ANYTHING
+    that starts like [X] *)
+Theorem C05_insertion_point_partial : forall cx ps l1 (F X : str), no_special_char cx 125 = true ->
+  ins_point_ok cx l1 X = true -> ok_items2 cx ps [] l1 F = true -> ok_items2 cx ps [] l1 X = true.
+Proof. exact ok_items2_insert. Qed.
+
+Theorem C05_fault_opening2_doc_partial : forall cx l1 fws op l2 tr,
+  let ps0 := walker_state cx in
+  ok_doc2 cx {| d_items2 := l1 ++ l2; d_trail2 := tr |} = true ->
+  no_special_char cx 125 = true ->
+  ins_point_ok cx l1 (fws ++ open_text2 op) = true ->
+  open_side2 cx ps0 [] fws op (unparse_items2 l2 ++ tr) = true ->
+  ok_items2 cx (open_state2 cx ps0 op) [] l2 tr = true ->
+  let s := unparse_items2 l1 ++ fws ++ open_text2 op ++ unparse_items2 l2 ++ tr in
+  let q := (length (unparse_items2 l1) + length fws + length (open_text2 op))%nat in
+  exists e, parse_top s false cx ps0 = PErr e (length s) /\ pe_pos e = Some q /\ pe_what e = 6%nat.
+Proof. exact fault_opening2_doc. Qed.
+
+(** the opening brace: nothing about the rest of the document has to be checked *)
+Theorem C05_fault_opening2_doc_brace_partial : forall cx l1 fws l2 tr,
+  let ps0 := walker_state cx in
+  ok_doc2 cx {| d_items2 := l1 ++ l2; d_trail2 := tr |} = true ->
+  no_special_char cx 125 = true ->
+  ins_point_ok cx l1 (fws ++ [123%N]) = true -> ws_ok fws = true ->
+  let s := unparse_items2 l1 ++ fws ++ 123%N :: unparse_items2 l2 ++ tr in
+  let q := (length (unparse_items2 l1) + length fws + 1)%nat in
+  exists e, parse_top s false cx ps0 = PErr e (length s) /\ pe_pos e = Some q /\ pe_what e = 6%nat.
+Proof. exact fault_opening2_doc_brace. Qed.
+
+(** non-vacuity.  The extended document [a \begin{center}b\section*[x]{y}\end{center} \sqrt{z} ]:
+    each of the nine opening delimiters of [c05_openers2] inserted behind the environment
+    (offset 44, a closed item), the hypotheses being those of the theorem — about the ORIGINAL
+    document and the delimiter; and [{] inserted behind the text run [a] (offset 1), after a blank *)
+Example C05_fault_opening2_doc_nonvacuous :
+  let cx := default_ctx in let ps0 := walker_state cx in
+  ok_doc2 cx {| d_items2 := c05_doc2_l1 ++ c05_doc2_l2; d_trail2 := [32] |} = true /\
+  no_special_char cx 125 = true /\
+  forallb (fun op =>
+    let s := unparse_items2 c05_doc2_l1 ++ [] ++ open_text2 op ++ unparse_items2 c05_doc2_l2 ++ [32] in
+    ins_point_ok cx c05_doc2_l1 ([] ++ open_text2 op) &&
+    open_side2 cx ps0 [] [] op (unparse_items2 c05_doc2_l2 ++ [32]) &&
+    ok_items2 cx (open_state2 cx ps0 op) [] c05_doc2_l2 [32] &&
+    match parse_top s false cx ps0 with
+    | PErr e p => Nat.eqb p (length s)
+                  && match pe_pos e with Some q => Nat.eqb q (44 + length (open_text2 op))%nat | None => false end
+                  && Nat.eqb (pe_what e) 6%nat
+    | _ => false
+    end) c05_openers2 = true /\
+  (let l1 := firstn 1 c05_doc2_l1 in let l2 := skipn 1 c05_doc2_l1 ++ c05_doc2_l2 in
+   l1 ++ l2 = c05_doc2_l1 ++ c05_doc2_l2 /\
+   ins_point_ok cx l1 ([32] ++ [123%N]) = true /\
+   exists e, parse_top (unparse_items2 l1 ++ [32] ++ 123%N :: unparse_items2 l2 ++ [32]) false cx ps0 = PErr e 56
+             /\ pe_pos e = Some 3%nat /\ pe_what e = 6%nat).
+Proof.
+  vm_compute. split; [reflexivity|]. split; [reflexivity|]. split; [reflexivity|].
+  split; [reflexivity|]. split; [reflexivity|]. eexists. repeat split.
+Qed.
+
+(** why the insertion point matters: [a%b] (a comment that ends with the input) is a valid
+    extended document; [{] inserted at its end becomes part of the comment and the faulted
+    text [a%b{] is ACCEPTED (replayed on the real code: no error) *)
+Example C05_fault_opening2_doc_point_needed :
+  let cx := default_ctx in let ps0 := walker_state cx in
+  let l1 := [Text2 [] [97]; Cmt2 [] [98] []] in
+  ok_doc2 cx {| d_items2 := l1 ++ []; d_trail2 := [] |} = true /\
+  ins_point_ok cx l1 ([] ++ [123%N]) = false /\
+  (exists o, parse_top (unparse_items2 l1 ++ [] ++ 123%N :: unparse_items2 [] ++ []) false cx ps0 = Ok o 4).
+Proof. vm_compute. split; [reflexivity|]. split; [reflexivity|]. eexists. reflexivity. Qed.
+
+Print Assumptions C05_follow_barrier_partial.
+Print Assumptions C05_insertion_point_partial.
+Print Assumptions C05_fault_opening2_doc_partial.
+Print Assumptions C05_fault_opening2_doc_brace_partial.
